@@ -80,6 +80,8 @@ pub struct Script {
     /// negotiation is "slow": a busy remote, a long round trip); waiters are woken when the hold is lifted
     pub hold_opens: bool,
     pub hold_wakers: Vec<Waker>,
+    /// SimNet ground truth: connections whose task has returned (in order)
+    pub ended: Vec<usize>,
 }
 
 #[derive(Clone)]
@@ -103,6 +105,7 @@ impl ScriptHandle {
             call_waker: None,
             hold_opens: false,
             hold_wakers: Vec::new(),
+            ended: Vec::new(),
         })))
     }
 
@@ -241,8 +244,10 @@ impl Transport for ScriptedTransport {
                 pset.report_connection_established(peer, endpoint.clone()).await?;
                 me.0.lock().started.insert(id, peer);
                 let conn = crate::env::simnet::SimConnection::new(pset, io, peer, endpoint, me.clone());
+                let me2 = me.clone();
                 executor.run_with_name("sim-connection", Box::pin(async move {
                     let _ = conn.start().await;
+                    me2.0.lock().ended.push(id);
                 }));
                 Ok(())
             }));
